@@ -157,6 +157,18 @@ def check_toggle(src, opts, toggle, size, case):
     if toggle == "filter_unused_linenum":
         if "\n".join(map(strip_label, oa.split("\n"))) != "\n".join(map(strip_label, ob.split("\n"))):
             raise Violation("filter_unused_linenum changes more than labels", case)
+        # only *unused* labels may go: every jump target of the filtered output still labels a line
+        try:
+            lines = parse.parse_program(ob)
+        except parse.B09SyntaxError:
+            lines = []
+        labels = {ln.label for ln in lines if ln.label is not None}
+        for ln in lines:
+            for st_ in ln.stmts:
+                tg = [st_.target] if st_.kind in ("goto", "gosub", "ifgoto") else (list(st_.targets) if st_.kind == "ongo" else [])
+                for t in tg:
+                    if t not in labels and t != 32700:
+                        raise Violation("filter_unused_linenum removed the label of line %d, which the output still jumps to" % t, case)
     elif toggle == "initialize_vars":
         la, lb = oa.split("\n"), ob.split("\n")
         i = 0
